@@ -118,7 +118,10 @@ pub fn run(ctx: &mut Ctx) {
         let (eng, qr) = init.qr_engagement().unwrap();
         let de_bytes = base64::decode_config(qr.strip_prefix("mdoc:").unwrap(), base64::URL_SAFE_NO_PAD).unwrap();
         check(ctx, "deviceEngagement", &cname, &de_bytes);
-        let (mut rdr, est, _) = reader::SessionManager::establish_session(qr, sess::simple_namespaces(&["family_name", "age_over_18"]), pki.iaca_registry()).unwrap();
+        // (an engagement this crate itself cannot read back is recorded, not a harness crash)
+        let (mut rdr, est, _) = match reader::SessionManager::establish_session(qr, sess::simple_namespaces(&["family_name", "age_over_18"]), pki.iaca_registry()) {
+            Ok(x) => x,
+            Err(e) => { ctx.emit.line("spec", "spec:deviceEngagement:readable-by-the-reader", "spec.eq refused accepted".into(), "true".into(), serde_json::json!({"config": cname, "error": e.to_string(), "msg_hex": hex::encode(&de_bytes)})); continue } };
         check(ctx, "sessionEstablishment", &cname, &est);
         let se: SessionEstablishment = cbor::from_slice(&est).unwrap();
         let (mut dev, _) = eng.process_session_establishment(se.clone(), TrustAnchorRegistry::default()).unwrap();
@@ -136,7 +139,17 @@ pub fn run(ctx: &mut Ctx) {
                 let sd: SessionData = cbor::from_slice(&m).unwrap();
                 let n = sess::peek_reader(&rdr).rdr_ctr;
                 if let Some(pt) = sess::aes_dec(&p.sk_reader, &sess::iv_bytes(true, n), sd.data.unwrap().as_ref()) { check(ctx, "deviceRequest", "new_request", &pt); }
+                // in some rounds the request on the wire comes from ANOTHER reader implementation announcing another version (same
+                // message number): whatever the reader announces, what this device emits is version "1.0"
+                if (round + ci) % 3 == 1 {
+                    let ver = ["0.9", "1", "", "1.1", "2.0", "0"][(round + ci / 3) % 6];
+                    let ir = Value::Map(vec![(Value::Text("docType".into()), Value::Text(held_types[0].clone())), (Value::Text("nameSpaces".into()), Value::Map(vec![(Value::Text(NS.into()), Value::Map(vec![(Value::Text("family_name".into()), Value::Bool(false))]))]))]);
+                    let req = Value::Map(vec![(Value::Text("version".into()), Value::Text(ver.into())), (Value::Text("docRequests".into()), Value::Array(vec![Value::Map(vec![(Value::Text("itemsRequest".into()), Value::Tag(24, Box::new(Value::Bytes(crate::gen::to_bytes(&ir)))))])]))]);
+                    let ct = sess::aes_enc(&p.sk_reader, &sess::iv_bytes(true, n), &crate::gen::to_bytes(&req));
+                    dev.handle_request(&cbor::to_vec(&SessionData { data: Some(ct.into()), status: None }).unwrap());
+                } else {
                 dev.handle_request(&m);
+                }
             }
             // response kinds: normal (1..n docs), unheld docs only, nothing permitted, malformed request -> error response
             let kind = (round + ci) % 5;
